@@ -313,7 +313,7 @@ func (f *File) seekWithoutLocking(offset int64, whence int) (int64, error) {
 		}
 		dst = int64(curr) + offset
 	case io.SeekEnd:
-		dst = f.info.Size() - offset
+		dst = f.info.Size() + offset
 	default:
 		return -1, config.ErrNotImplemented
 	}
@@ -354,7 +354,7 @@ func (f *File) seekWithoutLocking(offset int64, whence int) (int64, error) {
 		f.readOpWriter = writer
 	}
 
-	written, err := io.CopyN(io.Discard, f.readOpReader, dst-int64(f.readOpReader.BytesRead))
+	_, err := io.CopyN(io.Discard, f.readOpReader, dst-int64(f.readOpReader.BytesRead))
 	if err == io.EOF {
 		// Noop
 		switch whence {
@@ -363,7 +363,7 @@ func (f *File) seekWithoutLocking(offset int64, whence int) (int64, error) {
 		case io.SeekCurrent:
 			return int64(f.readOpReader.BytesRead) + offset, nil
 		case io.SeekEnd:
-			return int64(f.info.Size()) - offset, nil
+			return int64(f.info.Size()) + offset, nil
 		default:
 			return -1, config.ErrNotImplemented
 		}
@@ -373,7 +373,7 @@ func (f *File) seekWithoutLocking(offset int64, whence int) (int64, error) {
 		return -1, err
 	}
 
-	return written, nil
+	return dst, nil
 }
 
 // Inventory
